@@ -135,7 +135,8 @@ Proof.
     + assert (Adm : (at_least_as_close own (pre ++ b :: post) p < K)%nat -> False).
       { intros Cn. rewrite (should_split_true own _ _ p Lc Cn) in SS. discriminate. }
       destruct (choose_replace e b) as [q |] eqn:CR; [| split; [discriminate | intros Cn; destruct (Adm Cn)]].
-      destruct (probe e q); [split; [discriminate | intros Cn; destruct (Adm Cn)] |].
+      destruct (probe e q); [split; [discriminate | intros Cn; destruct (Adm Cn)] | |
+                             split; [discriminate | intros Cn; destruct (Adm Cn)]].
       destruct f as [| f']; [lia |]. cbn [add_core].
       assert (F2 : find_bucket own (pid p) (pre ++ bucket_remove b q :: post) = Some (pre, bucket_remove b q, post)).
       { rewrite (find_bucket_app _ _ _ _ Pre). cbn [find_bucket].
@@ -144,4 +145,25 @@ Proof.
       rewrite F2.
       destruct (bucket_add_after_remove b p q NoId (choose_replace_in _ _ _ CR) Lb) as (b' & ->).
       split; [discriminate | reflexivity].
+Qed.
+
+(* the probe's own exception leaves add_peer only when the probed contact's outcome is a local failure *)
+Lemma add_core_errprobe own e fuel : forall t p,
+  match add_core own e fuel t p with
+  | (r, pr, _) => r = ErrProbe -> exists q, In q pr /\ probe e q = PLocalFail
+  end.
+Proof.
+  induction fuel as [| f IH]; intros t p; cbn [add_core]; [intros H; discriminate H |].
+  destruct (find_bucket own (pid p) t) as [[[pre b] post] |]; [| intros H; discriminate H].
+  destruct (bucket_add b p); [intros H; discriminate H |].
+  destruct (should_split own (length pre) t (pid p)).
+  - destruct (split_bucket own b) as [b1 b2]. specialize (IH (pre ++ b1 :: b2 :: post) p).
+    destruct (add_core own e f (pre ++ b1 :: b2 :: post) p) as [[r pr] t3]. destruct (is_ret r); exact IH.
+  - destruct (choose_replace e b) as [q |]; [| intros H; discriminate H].
+    destruct (probe e q) eqn:Pq.
+    + intros H; discriminate H.
+    + specialize (IH (pre ++ bucket_remove b q :: post) p).
+      destruct (add_core own e f (pre ++ bucket_remove b q :: post) p) as [[r pr] t3].
+      intros H. destruct (IH H) as (x & Hx & Px). exists x. split; [right; exact Hx | exact Px].
+    + intros _. exists q. split; [left; reflexivity | exact Pq].
 Qed.
